@@ -75,12 +75,15 @@ func evalString(c *core.Ctx, src string, data map[string]any) Outcome {
 // goroutines at once: every evaluation must return what it returned alone. A replay of that section
 // alone first runs the head of the other sections to fill the sample.
 
-var replayChecks = map[string]bool{"C01": true, "C02": true, "C03": true, "C04": true, "C05": true, "C09": true, "C10": true, "C12": true, "C13": true}
+var replayChecks = map[string]bool{"C01": true, "C02": true, "C03": true, "C04": true, "C05": true, "C06": true, "C07": true, "C09": true, "C10": true, "C12": true, "C13": true}
 
 type pooledEval struct {
 	src  string
 	data map[string]any
 	want string
+	// for renders of a page of a loaded Template (successful ones only: what a failing render reports depends on the
+	// configuration of the moment)
+	tpl *textwire.Template
 }
 
 type evalPool struct {
@@ -99,7 +102,12 @@ func outcomeText(out string, err error) string {
 }
 
 func poolAdd(c *core.Ctx, src string, data map[string]any, o Outcome) {
-	if !replayChecks[c.Check.ID] || len(src) > 32<<10 || c.Section == "concurrent-replay" {
+	poolAddEntry(c, pooledEval{src: src, data: data, want: outcomeText(o.Out, o.Err)})
+}
+
+func poolAddEntry(c *core.Ctx, e pooledEval) {
+	src := e.src
+	if !replayChecks[c.Check.ID] || len(src) > 32<<10 || len(e.want) > 1<<20 || c.Section == "concurrent-replay" {
 		return
 	}
 	if strings.Contains(src, "shuffle") || strings.Contains(src, "rand") {
@@ -114,7 +122,7 @@ func poolAdd(c *core.Ctx, src string, data map[string]any, o Outcome) {
 	if p.seen%p.stride != 0 {
 		return
 	}
-	p.entries = append(p.entries, pooledEval{src, data, outcomeText(o.Out, o.Err)})
+	p.entries = append(p.entries, e)
 	if len(p.entries) >= evalPoolCap {
 		kept := p.entries[:0]
 		for k, e := range p.entries {
@@ -167,7 +175,17 @@ func concurrentReplaySection(others func() []core.Section) core.Section {
 				<-start
 				for n := range entries {
 					e := entries[(n+g*len(entries)/G)%len(entries)]
-					out, err := textwire.EvaluateString(e.src, e.data)
+					var out string
+					var err error
+					if e.tpl != nil {
+						o, fe := e.tpl.String(e.src, e.data)
+						out = o
+						if fe != nil {
+							err = fe.Error()
+						}
+					} else {
+						out, err = textwire.EvaluateString(e.src, e.data)
+					}
 					if got := outcomeText(out, err); got != e.want {
 						mu.Lock()
 						bads = append(bads, bad{e, got})
